@@ -299,6 +299,15 @@ func GenInput(r *rng.R, hostile bool) Input {
 		used[pn] = true
 		pkgs = append(pkgs, Pkg{Cat: r.Pick(cats), PN: pn, PF: pn + "-" + r.Pick(vers)})
 	}
+	// two packages of one category whose database directories are prefix-related as strings
+	// ("ed-1" and "ed-1x1-2.0"): the shorter one is requested, the longer one is not
+	prefixPair := -1
+	if !used["ed"] && r.Chance(1, 5) {
+		c := r.Pick(cats)
+		prefixPair = len(pkgs)
+		pkgs = append(pkgs, Pkg{Cat: c, PN: "ed", PF: "ed-1"}, Pkg{Cat: c, PN: "ed-1x1", PF: "ed-1x1-2.0"})
+		npk += 2
+	}
 	// ownership
 	lines := make([][]string, npk)
 	seenLine := make([]map[string]bool, npk)
@@ -376,6 +385,10 @@ func GenInput(r *rng.R, hostile bool) Input {
 	}
 	if len(want) == 0 || len(want) == npk && r.Chance(2, 3) {
 		want = map[int]bool{r.Intn(npk): true}
+	}
+	if prefixPair >= 0 {
+		want[prefixPair] = true
+		delete(want, prefixPair+1)
 	}
 	for i := range pkgs {
 		pkgs[i].Want = want[i]
